@@ -423,6 +423,18 @@ pub fn check_fragment(ctx: &Ctx, frag: &str, cat: &str) -> Result<(), Fail> {
             }
         }
     }
+    // the two expression helpers take name-value items only: a word or a list is refused with a spanned error
+    for src in ["v".to_string(), format!("v({})", frag)] {
+        if let Ok(m) = syn::parse_str::<syn::Meta>(&src) {
+            for (hname, r) in [("preserve_str_literal", parse_expr::preserve_str_literal(&m)), ("parse_str_literal", parse_expr::parse_str_literal(&m))] {
+                ctx.eval();
+                match r {
+                    Ok(e) => fail!("c13:helper-accepts-non-name-value", "{}(`{}`) = `{}`", hname, src, canon_tokens(e.to_token_stream())),
+                    Err(e) => check_err(&e, &m, &format!("{}(`{}`)", hname, src))?,
+                }
+            }
+        }
+    }
     // the two expression helpers differ only on a string literal
     for m in [Some(&quoted), bare.as_ref()].into_iter().flatten() {
         ctx.eval();
@@ -609,6 +621,26 @@ pub fn check_numeric(ctx: &Ctx, bytes: &Vec<u8>) -> Result<(), Fail> {
     let m: syn::Meta = match syn::parse_str(&src) {
         Ok(m) => m,
         Err(e) => fail!("c13:harness-render", "`{}`: {}", src, e),
+    };
+    // elements inside invisible groups (what `$e:expr` forwarding produces) mean the same
+    let m = if !quoted && d.ratio(1, 3) {
+        match m {
+            syn::Meta::NameValue(mut nv) => {
+                if let syn::Expr::Array(arr) = &mut nv.value {
+                    for el in arr.elems.iter_mut() {
+                        use syn::spanned::Spanned;
+                        let sp = el.span();
+                        let inner = el.clone();
+                        *el = syn::Expr::Group(syn::ExprGroup { attrs: vec![], group_token: syn::token::Group { span: sp }, expr: Box::new(inner) });
+                    }
+                }
+                ctx.class("numeric-array:grouped-elements");
+                syn::Meta::NameValue(nv)
+            }
+            other => other,
+        }
+    } else {
+        m
     };
     if n >= 2 {
         ctx.nontrivial(&src);
